@@ -12,6 +12,9 @@
      lostwake    check-then-sleep on a futex word the waker forgets to change -> lost wake-up in SOME schedule
      spin        a thread spins with nsync_spin_delay_ on a flag set by another -> terminates (park rule)
      pollers     two threads poll by taking/releasing a spinlock, a third sets the flag -> terminates
+     stalepost   a wait loop like nsync's (timed semaphore wait, then a spin delay while "still waiting") that is
+                 handed a stale post: the iteration has no net effect on memory, yet it must not be parked --
+                 the next one sleeps to its deadline and ends the loop   -> terminates
      futexconf   the futex conformance cases on the model       -> outcome text compared with the real kernel  */
 #include "hcommon.h"
 #include <stdarg.h>
@@ -25,7 +28,7 @@ static int *volatile leaked;
 static int futex_word, plain_flag;
 
 static int toy_setup (const char *program) {
-	static const char *const known[] = { "race", "norace", "relacq", "relaxed", "uaf", "deadstack", "overrun", "deadlock", "lostwake", "spin", "pollers", "futexconf", NULL };
+	static const char *const known[] = { "race", "norace", "relacq", "relaxed", "uaf", "deadstack", "overrun", "deadlock", "lostwake", "spin", "pollers", "stalepost", "futexconf", NULL };
 	int i;
 	for (i = 0; known[i]; i++) if (!strcmp (program, known[i])) { snprintf (which, sizeof which, "%s", program); h_parse ("x"); return !strcmp (program, "pollers") || !strcmp (program, "futexconf") ? 3 : 2; }
 	return -1;
@@ -66,6 +69,19 @@ static void toy_thread (int me) {
 	else if (!strcmp (which, "pollers")) {
 		if (me < 2) { unsigned a = 0; for (;;) { uint32_t v; nsync_spin_test_and_set_ (&lockw, 1, 1, 0); v = ATM_LOAD (&aflag); ATM_STORE_REL (&lockw, 0); if (v) break; a = nsync_spin_delay_ (a); } }
 		else { mc_point (); ATM_STORE_REL (&aflag, 1); }
+	}
+	else if (!strcmp (which, "stalepost")) {
+		static nsync_semaphore sem; static int inited;
+		if (me == 0) {
+			int outcome = 0; unsigned a = 0;
+			nsync_mu_semaphore_init (&sem); inited = 1; mc_flag_set (&f1, 1);
+			ATM_STORE (&aflag, 1);                  /* "still waiting": nobody will ever clear it */
+			while (ATM_LOAD_ACQ (&aflag) != 0 && outcome == 0) {
+				outcome = nsync_mu_semaphore_p_with_deadline (&sem, h_time (H_D1));
+				if (ATM_LOAD (&aflag) != 0 && outcome == 0) a = nsync_spin_delay_ (a);
+			}
+			mc_assert (outcome == ETIMEDOUT, "loop ended without the timeout");
+		} else { mc_await (&f1); nsync_mu_semaphore_v (&sem); (void) inited; }
 	}
 	else if (!strcmp (which, "futexconf")) fc_run (me);
 }
